@@ -257,8 +257,8 @@ theorem finishText_resp (s : Slots) (x : Str) :
 object whose status has no custom handler and whose page the default handler produced as `x`,
 the call is: the events of `_handle`, one `start_response(e.line, headerlist)`, the page as one
 chunk (nothing for HEAD / a body-less status), nothing to close. -/
-theorem wsgi_of_error (app : Wsgi.App) (s : Slots) (r : Wsgi.Req) (hp : r.pathOK = true)
-    (e : RState) (body : Out) (hflow : handleFlow app r = .resp (.resp true e body))
+theorem wsgi_of_error_out (app : Wsgi.App) (s : Slots) (r : Wsgi.Req)
+    (e : RState) (body : Out) (hout : (handle app s r).2.2 = .resp true e body)
     (hno : errHandlerFor app e.code = none) (s1 : Slots) (x : Str)
     (hd : defaultHandler (withResp (handle app s r).1 (apply e (handle app s r).1.resp)) e body = some (s1, .text x))
     (hl : List (Str × Str)) (hhl : headerlist (finishText s1 x).1.resp = some hl) :
@@ -267,9 +267,6 @@ theorem wsgi_of_error (app : Wsgi.App) (s : Slots) (r : Wsgi.Req) (hp : r.pathOK
       (if isBodyless e.code || r.isHead then [] else if x.isEmpty then [] else [.chunk (utf8 x)]) ∧
     (wsgi app s r).closer = none ∧
     (wsgi app s r).slots = (finishText s1 x).1 := by
-  obtain ⟨hout, _⟩ := handle_out app s r hp
-  rw [hflow] at hout
-  simp only [settle] at hout
   have hcast := cast_error_exact app r.fileWrapper (handle app s r).1 e body hno s1 x hd
   obtain ⟨hc1, hl1, _, _⟩ := defaultHandler_resp _ e body s1 (.text x) hd
   have hcode : (finishText s1 x).1.resp.code = e.code := by
@@ -286,6 +283,21 @@ theorem wsgi_of_error (app : Wsgi.App) (s : Slots) (r : Wsgi.Req) (hp : r.pathOK
   cases hsup : (isBodyless e.code || r.isHead) with
   | true => exact ⟨by simp [closeEvents], by simp, rfl, trivial⟩
   | false => exact ⟨by simp, by simp, rfl, trivial⟩
+
+theorem wsgi_of_error (app : Wsgi.App) (s : Slots) (r : Wsgi.Req) (hp : r.pathOK = true)
+    (e : RState) (body : Out) (hflow : handleFlow app r = .resp (.resp true e body))
+    (hno : errHandlerFor app e.code = none) (s1 : Slots) (x : Str)
+    (hd : defaultHandler (withResp (handle app s r).1 (apply e (handle app s r).1.resp)) e body = some (s1, .text x))
+    (hl : List (Str × Str)) (hhl : headerlist (finishText s1 x).1.resp = some hl) :
+    (wsgi app s r).events = (handle app s r).2.1 ++ [.startResponse e.line hl false] ∧
+    (wsgi app s r).body =
+      (if isBodyless e.code || r.isHead then [] else if x.isEmpty then [] else [.chunk (utf8 x)]) ∧
+    (wsgi app s r).closer = none ∧
+    (wsgi app s r).slots = (finishText s1 x).1 := by
+  obtain ⟨hout, _⟩ := handle_out app s r hp
+  rw [hflow] at hout
+  simp only [settle] at hout
+  exact wsgi_of_error_out app s r e body hout hno s1 x hd hl hhl
 
 /-! ### the `start_response` call of the normal path carries `headerlist` of the final response object -/
 
